@@ -201,6 +201,8 @@ def hedgehog_case(draw):
     jit = [0.0, 0.05, -0.1] if sphere else [0.0, 0.05, -0.1, 0.2]
     return {"n": n, "cell": cell, "vertex": vert, "jitter": [draw(st.sampled_from(jit)) for _ in range(3)],
             "sign": draw(st.sampled_from([1, -1])), "off": [draw(st.integers(-5, 5)) for _ in range(3)],
+            "labels": draw(st.sampled_from([None, None, ["a", "b", "c"], ["mx", "my", "mz"]])),
+            "mapping": draw(st.sampled_from([None, None, [1, 2, 0], [2, 0, 1], [1, 0, 2], [0, 1, 2]])),
             "sphere": sphere, "scale_len": draw(st.sampled_from([1.0, 8e5, 3e-3])),
             "junk": draw(st.sampled_from([0, 0, 11, 12]))}
 
@@ -227,7 +229,16 @@ def check_hedgehog(case):
         junk = np.random.default_rng(case.get("junk", 0)).normal(size=m.shape) if case.get("junk", 0) else np.zeros_like(m)
         m = np.where(valid[..., np.newaxis], m, junk)
         tag("spherical-sample")
-    f = df.Field(mesh, nvdim=3, value=m, valid=valid)
+    # the tools read the three stored components as the x, y and z components; component labels and the declared
+    # component-to-axis mapping of the same array do not change any count
+    kw = {}
+    if case.get("labels"):
+        kw["vdims"] = list(case["labels"])
+    if case.get("mapping"):
+        labels = list(case.get("labels") or ["x", "y", "z"])
+        kw["vdim_mapping"] = {labels[c]: "xyz"[a] for c, a in enumerate(case["mapping"])}
+        tag("declared-mapping-permuted")
+    f = df.Field(mesh, nvdim=3, value=m, valid=valid, **kw)
     for direction in "xyz":
         r = dft.count_bps(f, direction=direction)
         want_tt, want_hh = (1, 0) if case["sign"] > 0 else (0, 1)
@@ -395,6 +406,15 @@ def check_demag(case):
         if abs(hx / case["M"] + 1 / 3) > 1e-8:
             raise Violation("demag-cube-third", f"{hx / case['M']!r}")
         tag("cube")
+    # the tensor a caller received is the caller's: changing it in place (sign convention, other labels) must not
+    # change what a later call for the same discretisation returns
+    keep = tensor.array.copy()
+    tensor.array[...] *= -1
+    tensor.valid[...] = False
+    again = dft.demag_tensor(df.Mesh(p1=(0, 0, 0), p2=[k * c for k, c in zip(n, cell)], n=n))
+    if not np.array_equal(again.array, keep) or not again.valid.all():
+        raise Violation("demag-tensor-shared-between-calls", f"cells {cell}, n {n}: a second demag_tensor call returns the "
+                                                             f"object the first caller modified")
 
 
 # --------------------------------------------------------------------------- refusals
